@@ -226,17 +226,25 @@ func Main(rep *core.Report, args *core.Args, prop string, stages []Stage) {
 				}
 			}
 		}()
+		t0 := time.Now()
 		traces := Collect(rep, st, args.Seed)
 		close(stop)
+		tTLC := time.Since(t0)
+		stageStart := time.Now()
+		stageDone := func() {
+			rep.Note("stage %s: TLC %.1fs, replay on the code %.1fs", st.Name, tTLC.Seconds(), time.Since(stageStart).Seconds())
+		}
 		if len(st.Layouts) > 0 {
 			var lc []Config
 			for i, l := range st.Layouts {
 				lc = append(lc, Config{Layout: l, Pager: sim.PagerOpts{Sector: 512, BigEndian: i%2 == 1}})
 			}
 			replayAll(rep, prop, traces, lc, args.Seed, true, st.Workers)
+			stageDone()
 			continue
 		}
 		ReplayAll(rep, prop, traces, cfgs, args.Seed)
+		stageDone()
 	}
 	if Post != nil {
 		Post()
